@@ -3,36 +3,49 @@ package main
 import (
 	"fmt"
 
+	"github.com/canopy-network/canopy/fsm"
 	"github.com/canopy-network/canopy/lib"
-	"github.com/canopy-network/canopy/store"
+	"github.com/canopy-network/canopy/lib/crypto"
+	"verifharness/sim"
 )
 
-// replay of the VStoreProofs counterexample on the real store: a prefix that extends a stored user key into its version suffix
+// replay probe (C06): the same signed content under an equivalent public-key representation (ETH key: 64 vs 65 bytes)
 func main() {
-	c := lib.DefaultConfig()
-	c.StoreConfig.InMemory = true
-	s, err := store.NewStoreInMemory(lib.NewNullLogger(), c)
+	eth, err := crypto.NewETHSECP256K1PrivateKey()
 	if err != nil {
 		panic(err)
 	}
-	st := s.(*store.Store)
-	_ = st.Set([]byte{1, 1}, []byte{9})
-	if _, err = st.Commit(); err != nil {
-		panic(err)
+	g := &sim.GenesisSpec{}
+	for i := 0; i < 4; i++ {
+		g.Validators = append(g.Validators, sim.StdValidator(i, 1000000))
 	}
-	for _, p := range [][]byte{{1, 1}, {1, 1, 0}, {1, 1, 0, 0}} {
-		it, e := st.Iterator(p)
-		if e != nil {
-			panic(e)
+	g.Accounts = append(g.Accounts, &fsm.Account{Address: eth.PublicKey().Address().Bytes(), Amount: 5_000_000})
+	n, e := sim.NewFNode(g.State(), nil)
+	if e != nil {
+		panic(e)
+	}
+	k5 := sim.BLSKey(5)
+	h := n.FSM.Height()
+	b1 := sim.TxBytes(fsm.NewSendTransaction(eth, crypto.NewAddress(k5.Addr), 1000, 1, 1, 10000, h, ""))
+	tx := new(lib.Transaction)
+	if er := lib.Unmarshal(b1, tx); er != nil {
+		panic(er)
+	}
+	fmt.Println("public key length in the original:", len(tx.Signature.PublicKey))
+	tx.Signature.PublicKey = append([]byte{0x04}, tx.Signature.PublicKey...)
+	b2, _ := lib.Marshal(tx)
+	bal := func() uint64 { b, _ := n.FSM.GetAccountBalance(crypto.NewAddress(k5.Addr)); return b }
+	out := n.Apply(&sim.BlockSpec{Txs: [][]byte{b1}})
+	fmt.Println("block 1 (original): err", out.Err, "applied", len(out.Results.Results), "recipient:", bal())
+	out = n.Apply(&sim.BlockSpec{Txs: [][]byte{b2}})
+	ap := 0
+	if out.Results != nil {
+		ap = len(out.Results.Results)
+	}
+	fmt.Println("block 2 (public key with the 0x04 prefix, canonical protobuf): err", out.Err, "applied", ap, "recipient:", bal())
+	if out.Results != nil {
+		for _, f := range out.Results.Failed {
+			fmt.Println("   failed:", f.Error)
 		}
-		for ; it.Valid(); it.Next() {
-			fmt.Printf("prefix %v -> key %v value %v\n", p, it.Key(), it.Value())
-		}
-		it.Close()
-		it, _ = st.RevIterator(p)
-		for ; it.Valid(); it.Next() {
-			fmt.Printf("rev prefix %v -> key %v value %v\n", p, it.Key(), it.Value())
-		}
-		it.Close()
 	}
 }
